@@ -28,3 +28,11 @@ EQUIVALENTS += [
     e("eq-point2index-temp", ["C01", "C07"], M, "index = np.floor((point - self.region.pmin) / self.cell).astype(int)", "rel = np.subtract(point, self.region.pmin)\n        index = np.floor(rel / self.cell).astype(int)"),
     e("eq-cells-rename", ["C01"], M, "np.linspace(pmin + cell / 2, pmax - cell / 2, n)\n                for pmin, pmax, cell, n in zip(", "np.linspace(lo + 0.5 * dx, hi - 0.5 * dx, cnt)\n                for lo, hi, dx, cnt in zip("),
 ]
+
+EQUIVALENTS += [
+    e("eq-integrate-zero-term", ["C06"], F, "return sum_ * self.mesh.dV", "return sum_ * self.mesh.dV + 0 * self.mesh.region.pmin[0]"),
+    e("eq-integrate-order", ["C06"], F, "res_array = np.sum(self.array, axis=axis) * self.mesh.cell[axis]", "dx = self.mesh.cell[axis]\n            res_array = dx * np.sum(self.array, axis=axis)"),
+    e("eq-diff-kernel-var", ["C04"], OP, 'derivative_array = np.convolve(array, [1, -2, 1], "same")', 'kernel = [1, -2, 1]\n        derivative_array = np.convolve(array, kernel, "same")'),
+    e("eq-stencil-reorder", ["C04"], OP, "derivative_array[0] = 2 * array[0] - 5 * array[1] + 4 * array[2] - array[3]", "derivative_array[0] = 4 * array[2] - array[3] + 2 * array[0] - 5 * array[1]"),
+    e("eq-curl-temp", ["C05"], F, "return curl_x << curl_y << curl_z", "first_two = curl_x << curl_y\n        return first_two << curl_z"),
+]
